@@ -65,6 +65,7 @@ pub type Result<T> = std::result::Result<T, MainError>;
 impl From<OutputStyleValidationError> for MainError { #[verifier::external_body] fn from(e: OutputStyleValidationError) -> Self { unimplemented!() } }
 impl From<SelectionParseError> for MainError { #[verifier::external_body] fn from(e: SelectionParseError) -> Self { unimplemented!() } }
 impl From<SorterParserError> for MainError { #[verifier::external_body] fn from(e: SorterParserError) -> Self { unimplemented!() } }
+impl From<ProcessError> for MainError { #[verifier::external_body] fn from(e: ProcessError) -> Self { unimplemented!() } }
 impl From<PreSetParserError> for MainError { #[verifier::external_body] fn from(e: PreSetParserError) -> Self { unimplemented!() } }
 
 #[verifier::external_trait_specification]
@@ -272,22 +273,28 @@ impl Cli {
     pub closed spec fn no_overflow(&self) -> bool { self.take matches Some(t) ==> self.skip + t <= u64::MAX }
 }
 
+// what Process::start guarantees about the started chain `s` of an assembled chain `q`
+pub open spec fn started_from(q: Box<dyn Process>, s: Box<dyn Process>) -> bool {
+    s.inv() && is_prefix(q.log(), s.log()) && (q.eager() ==> s.eager()) && s.must_break() == q.must_break()
+}
 impl<S: Read> Master<S> {
 //@@ slice go.assemble = src/lib.rs :: impl<S: Read> Master<S> :: fn go
 //@@ safety C03 C07 C08 C09 C18 C14
 //@@ from "let mut process = self.cli.output_options.get_processor(self.stdout.clone())?;"
-//@@ to "process = self.cli.set.create_process(process)?;"
-//@@ must-precede "process.start(Titles::default())?;"
+//@@ to "process.start(Titles::default())?;"
+//@@ must-precede "let mut index = 0;"
 //@@ prologue
     pub fn go_assemble(&self) -> (r: Result<Box<dyn Process>>)
         requires self.cli_spec().no_overflow(),
         ensures
             r is Ok ==> r->Ok_0.inv(), // @obl GO.inv : C03
-            // the chain handed to the read loop prints exactly the documented composition, whatever the order of options
-            r is Ok ==> exists|p: Box<dyn Process>, v: Map<String, JsonValue>, m: Map<String, Rc<dyn Get>>| #[trigger] is_pipeline_of(r->Ok_0, p, *self.cli_spec(), v, m), // @obl GO.order : C03 C07 C08 C09
+            // the chain handed to the read loop is the STARTED documented composition, whatever the order of options: the slice
+            // can only end well by assembling every stage and then calling start on exactly that chain (C18: no way past start)
+            r is Ok ==> exists|q: Box<dyn Process>, p: Box<dyn Process>, v: Map<String, JsonValue>, m: Map<String, Rc<dyn Get>>|
+                #[trigger] is_pipeline_of(q, p, *self.cli_spec(), v, m) && started_from(q, r->Ok_0), // @obl GO.order : C03 C07 C08 C09 C18
     {
 //@@ epilogue
-        proof { assert(exists|p: Box<dyn Process>, v: Map<String, JsonValue>, m: Map<String, Rc<dyn Get>>| #[trigger] is_pipeline_of(process, p, *self.cli_spec(), v, m)); }
+        proof { assert(is_pipeline_of(assembled, p0, *self.cli_spec(), gv, gm) && started_from(assembled, process)); }
         let r: Result<Box<dyn Process>> = Ok(process);
         proof { assert(r->Ok_0 == process); }
         r
@@ -362,6 +369,9 @@ impl<S: Read> Master<S> {
             }
             assert(is_pipeline_of(process, p0, cli, v, m));
         }
+        let ghost assembled = process;
+        let ghost gv = vars_upto(cli.set@, cli.set@.len() as int);
+        let ghost gm = macros_upto(cli.set@, cli.set@.len() as int);
 //@@ endslice
 }
 
